@@ -36,7 +36,7 @@ func needDims(a *mc.Agg, dims ...string) []string {
 }
 
 func c01Work(c *mc.Ctx) {
-	enumItems(c, withRecursive(ref.Universe(c.Tier)), c01Case)
+	enumItems(c, append(withRecursive(ref.Universe(c.Tier)), ref.BigMaps(c.Tier)...), c01Case)
 	// the round trip must not depend on which types the instance built before
 	unit := 1 << 20
 	buildOrder(c, &unit, "C01", bytesProbe)
